@@ -105,70 +105,39 @@ Proof.
 Qed.
 
 (* ---------------------------------------------------------------- *)
-(* nbns.go:141 sendNBNS: well-formed with Ethernet source = srcAddr.MAC (sic) *)
-Lemma nbns_partial sm si dm di p junk :
-  mac_ok sm -> ip4_ok si -> mac_ok dm -> ip4_ok di ->
+(* nbns.go:141 sendNBNS (Ethernet source = NIC MAC since fix 0948ecc): any payload, any caller addresses *)
+Lemma nbns_wf c sm si dm di p junk :
+  mac_ok (host_mac c) -> ip4_ok si -> mac_ok dm -> ip4_ok di ->
   bytes_ok p -> (length p <= 1480)%nat -> length junk = EthMaxSize ->
-  exists fr, send_nbns (sm, si) (dm, di) p junk = Ok [fr] /\
-    wf_udp4 sm dm si di 137 137 (beq p) false fr = true.
+  exists fr, send_nbns c (sm, si) (dm, di) p junk = Ok [fr] /\
+    wf_udp4 (host_mac c) dm si di 137 137 (beq p) false fr = true.
 Proof.
   intros. unfold send_nbns. cbn [a_mac a_ip fst snd]. apply udp4_wf; auto; lia.
 Qed.
 
-(* hence well-formed whenever the caller passes the host's own MAC (outside the recorded class) *)
-Lemma nbns_outside_known c si dm di p junk :
-  mac_ok (host_mac c) -> ip4_ok si -> mac_ok dm -> ip4_ok di ->
-  bytes_ok p -> (length p <= 1480)%nat -> length junk = EthMaxSize ->
-  exists fr, send_nbns (host_mac c, si) (dm, di) p junk = Ok [fr] /\
-    wf_udp4 (host_mac c) dm si di 137 137 (beq p) false fr = true.
-Proof. intros. apply nbns_partial; auto. Qed.
-
 Definition cfg1 : cfg :=
   mkCfg [0;85;85;85;85;85] [192;168;0;129] [254;128;0;0;0;0;0;0;0;0;0;0;0;1;1;41] [0;102;102;102;102;102] [192;168;0;11] 1500.
 
-Lemma nbns_refuted :
-  exists c sm si dm di sq name junk fr,
-    mac_ok (host_mac c) /\ mac_ok sm /\ ip4_ok si /\ mac_ok dm /\ ip4_ok di /\ length junk = EthMaxSize /\
-    send_nbns_query (sm, si) (dm, di) sq name junk = Ok [fr] /\
-    wf_udp4 (host_mac c) dm si di 137 137 (wf_dns_query (Some sq) [nb_label name] 32 1) false fr = false /\
-    wf_udp4 sm dm si di 137 137 (wf_dns_query (Some sq) [nb_label name] 32 1) false fr = true.
-Proof.
-  exists cfg1, [2;0;0;0;0;9], [192;168;0;129], eth_bcast, [255;255;255;255], 7, [72;79;83;84], (repeat 0 EthMaxSize).
-  eexists.
-  repeat (split; [split; [reflexivity|oks]|]).
-  split; [reflexivity|]. split; [vm_compute; reflexivity|]. split; vm_compute; reflexivity.
-Qed.
-
 (* ---------------------------------------------------------------- *)
-(* ssdp.go:199 SendSSDPSearch: refuted (LF line ends, Ethernet broadcast for 239.255.255.250) *)
-Lemma ssdp_refuted :
-  exists c junk fr, mac_ok (host_mac c) /\ ip4_ok (host_ip4 c) /\ length junk = EthMaxSize /\
-    send_ssdp_search c junk = Ok [fr] /\
-    wf_udp4 (host_mac c) (mac_of_mcast4 [239;255;255;250]) (host_ip4 c) [239;255;255;250] 1900 1900 wf_msearch true fr = false.
-Proof.
-  exists cfg1, (repeat 0 EthMaxSize). eexists.
-  repeat (split; [split; [reflexivity|oks]|]).
-  split; [reflexivity|]. split; vm_compute; reflexivity.
-Qed.
-
-(* ... and, for every configuration and buffer content, a well-formed datagram carrying exactly the
-   library's M-SEARCH text to 239.255.255.250:1900 in an Ethernet broadcast frame *)
-Lemma ssdp_partial c junk :
+(* ssdp.go:199 SendSSDPSearch (CRLF text since f7b029e, multicast MAC since df36fdf) *)
+Lemma ssdp_wf c junk :
   mac_ok (host_mac c) -> ip4_ok (host_ip4 c) -> length junk = EthMaxSize ->
   exists fr, send_ssdp_search c junk = Ok [fr] /\
-    wf_udp4 (host_mac c) eth_bcast (host_ip4 c) [239;255;255;250] 1900 1900 (beq ascii_msearch) false fr = true.
+    wf_udp4 (host_mac c) (mac_of_mcast4 [239;255;255;250]) (host_ip4 c) [239;255;255;250] 1900 1900 wf_msearch true fr = true.
 Proof.
   intros H1 H2 HJ. unfold send_ssdp_search. cbn [a_mac a_ip fst snd ssdp_ip4_addr].
-  apply udp4_wf; auto; try lia.
+  destruct (udp4_wf (host_mac c) [1; 0; 94; 127; 255; 250] 255 (host_ip4 c) [239; 255; 255; 250] 1900 1900 ascii_msearch junk)
+    as (fr & E & W); auto; try lia.
   all: try (split; [reflexivity|oks]).
-  all: try (unfold ascii_msearch; cbn [app]; oks).
+  all: try (unfold ascii_msearch, crlf; cbn [app]; oks).
   all: try (vm_compute; lia).
+  exists fr. split; [exact E|]. apply (wf_udp4_weaken _ _ _ _ _ _ ascii_msearch); auto.
 Qed.
 
 (* ---------------------------------------------------------------- *)
 (* mdns.go:118 sendMDNS, IPv4 branch (SendMDNSQuery / SendLLMNRQuery / SendSleepProxyResponse):
    the buffer is freshly allocated; the DNS message buf is carried unchanged *)
-Lemma mdns4_partial c buf sm si dm di port :
+Lemma mdns4_wf c buf sm si dm di port :
   mac_ok (host_mac c) -> ip4_ok si -> mac_ok dm -> ip4_ok di -> port < 65536 ->
   bytes_ok buf -> (length buf <= 1480)%nat ->
   exists fr, send_mdns c buf (sm, si) (dm, di) port = Ok [fr] /\
@@ -180,41 +149,40 @@ Proof.
   all: try (unfold zero_buf; apply repeat_length).
 Qed.
 
-Lemma mdns_query_partial c name :
+Lemma dns_query_ok id fl nm qt qc : id < 65536 -> fl < 65536 -> qt < 65536 -> qc < 65536 -> bytes_ok nm ->
+  bytes_ok (dns_query id fl nm qt qc).
+Proof.
+  intros. unfold dns_query. apply bytes_ok_app. split; [oks|]. apply bytes_ok_app. split; [assumption|oks].
+Qed.
+
+(* SendMDNSQuery / SendLLMNRQuery: the question bytes dns_query builds reach 224.0.0.251:5353 /
+   224.0.0.252:5355 in a frame addressed to the group's multicast MAC *)
+Lemma mdns_query_frame c name :
   mac_ok (host_mac c) -> ip4_ok (host_ip4 c) -> bytes_ok (dns_name name) -> (length (dns_name name) <= 1400)%nat ->
   exists fr, send_mdns_query c name = Ok [fr] /\
-    wf_udp4 (host_mac c) eth_bcast (host_ip4 c) [224;0;0;251] 5353 5353
-      (beq (dns_query 0 0 (dns_name name) 255 255)) false fr = true.
+    wf_udp4 (host_mac c) (mac_of_mcast4 [224;0;0;251]) (host_ip4 c) [224;0;0;251] 5353 5353
+      (beq (dns_query 0 0 (dns_name name) 255 255)) true fr = true.
 Proof.
   intros H1 H2 Hn Hl. unfold send_mdns_query.
-  apply mdns4_partial; auto; try lia.
+  destruct (mdns4_wf c (dns_query 0 0 (dns_name name) 255 255) (host_mac c) (host_ip4 c) (a_mac mdns_ip4_addr) [224;0;0;251] 5353)
+    as (fr & E & W); auto; try lia.
   all: try (split; [reflexivity|oks]).
-  - unfold dns_query. apply bytes_ok_app. split; [oks|]. apply bytes_ok_app. split; [exact Hn|oks].
+  - apply dns_query_ok; auto; lia.
   - unfold dns_query. rewrite !app_length. cbn [length]. lia.
+  - exists fr. split; [exact E|]. apply (wf_udp4_weaken _ _ _ _ _ _ (dns_query 0 0 (dns_name name) 255 255)); auto using beq_refl.
 Qed.
 
-Lemma mdns_query_refuted :
-  exists c name fr, mac_ok (host_mac c) /\ ip4_ok (host_ip4 c) /\
-    send_mdns_query c name = Ok [fr] /\
-    wf_udp4 (host_mac c) (mac_of_mcast4 [224;0;0;251]) (host_ip4 c) [224;0;0;251] 5353 5353
-      (wf_dns_query None (split_dots name []) 255 255) true fr = false /\
-    wf_udp4 (host_mac c) eth_bcast (host_ip4 c) [224;0;0;251] 5353 5353
-      (wf_dns_query None (split_dots name []) 255 255) false fr = true.
-Proof.
-  exists cfg1, [97;46;108;111;99;97;108;46]. eexists.
-  repeat (split; [split; [reflexivity|oks]|]).
-  split; [reflexivity|]. split; vm_compute; reflexivity.
-Qed.
-
-Lemma llmnr_query_refuted :
-  exists c name fr, mac_ok (host_mac c) /\ ip4_ok (host_ip4 c) /\
-    send_llmnr_query c name = Ok [fr] /\
+Lemma llmnr_query_frame c name :
+  mac_ok (host_mac c) -> ip4_ok (host_ip4 c) -> bytes_ok (dns_name name) -> (length (dns_name name) <= 1400)%nat ->
+  exists fr, send_llmnr_query c name = Ok [fr] /\
     wf_udp4 (host_mac c) (mac_of_mcast4 [224;0;0;252]) (host_ip4 c) [224;0;0;252] 5355 5355
-      (wf_dns_query None (split_dots name []) 255 255) true fr = false /\
-    wf_udp4 (host_mac c) eth_bcast (host_ip4 c) [224;0;0;251] 5355 5355
-      (wf_dns_query None (split_dots name []) 255 255) false fr = true.
+      (beq (dns_query 0 0 (dns_name name) 12 255)) true fr = true.
 Proof.
-  exists cfg1, [112;99;46]. eexists.
-  repeat (split; [split; [reflexivity|oks]|]).
-  split; [reflexivity|]. split; vm_compute; reflexivity.
+  intros H1 H2 Hn Hl. unfold send_llmnr_query.
+  destruct (mdns4_wf c (dns_query 0 0 (dns_name name) 12 255) (host_mac c) (host_ip4 c) (a_mac llmnr_ip4_addr) [224;0;0;252] 5355)
+    as (fr & E & W); auto; try lia.
+  all: try (split; [reflexivity|oks]).
+  - apply dns_query_ok; auto; lia.
+  - unfold dns_query. rewrite !app_length. cbn [length]. lia.
+  - exists fr. split; [exact E|]. apply (wf_udp4_weaken _ _ _ _ _ _ (dns_query 0 0 (dns_name name) 12 255)); auto using beq_refl.
 Qed.
